@@ -680,3 +680,32 @@ def _register_generators():
 
 
 _register_generators()
+
+
+# ------------------------------------------------------------------------------------------ --project-root validation
+path_resolved = uf("path_resolved", [PathT], PathT, concrete=lambda p: __import__("pathlib").Path(p).resolve())
+
+
+def _x_resolve(ex, args, kwargs, lineno):
+    """p.resolve(): the absolute, symlink-free spelling of p (uninterpreted)."""
+    from pyvc.ty import VOpaque
+    ex.ufs_used.add("path_resolved")
+    return VOpaque(z3.Function("uf.path_resolved", PathT.sort(), PathT.sort())(args[0].t), PathT)
+
+
+EXTERNALS.setdefault("Path.resolve", _x_resolve)
+
+
+@contract(U + "_resolve_explicit_project_root", no_selftest=True, props=["C06"],
+          types=dict(explicit_root=Str, verbose=Bool, root=PathT), returns=PathT,
+          raises=["SystemExit"], modifies=["stderr"], exc=Int)
+class ResolveExplicitProjectRoot:
+    def raises_when(explicit_root):
+        # property text: "invalid option" => exit 2: --project-root must name an existing directory
+        return not fs_exists(path_of_str(explicit_root)) or not fs_is_dir(path_of_str(explicit_root))
+
+    def on_raise_exit_code_2(exc):
+        return exc == 2
+
+    def value(explicit_root):
+        return path_resolved(path_of_str(explicit_root))
